@@ -3,6 +3,8 @@ package main
 import (
 	"fmt"
 	"go/constant"
+	"go/token"
+	"go/types"
 	"strings"
 
 	"golang.org/x/tools/go/ssa"
@@ -157,6 +159,74 @@ func freshInstances(c *Ctx, r *Report, cs *Census) {
 		r.Check(reg.Fresh, "fresh-instance", reg.ID(), reg.Ctor.Pos(), reg.FreshWhy,
 			"constructor of "+reg.ID()+" does not return a new instance per call: "+reg.FreshWhy+" — state (configuration, scratch fields) would leak between runs")
 	}
+	ctorFieldIntegrity(c, r)
+}
+
+// ctorFieldIntegrity: the constructor the framework calls is the field `Lint`
+// of the registered lint struct. Every store into such a field anywhere in the
+// module must put there either a function/closure that itself returns a fresh
+// instance per call, or a copy of another lint struct's `Lint` field (the
+// deprecated Lint ↔ CertificateLint wrappers). Otherwise the framework could
+// swap a registered constructor for one that hands out a cached instance.
+func ctorFieldIntegrity(c *Ctx, r *Report) {
+	isLintStruct := func(t types.Type) bool {
+		if p, ok := t.Underlying().(*types.Pointer); ok {
+			t = p.Elem()
+		}
+		n, ok := t.(*types.Named)
+		if !ok || n.Obj().Pkg() == nil || n.Obj().Pkg().Path() != modPath+"/lint" {
+			return false
+		}
+		switch n.Obj().Name() {
+		case "Lint", "CertificateLint", "RevocationListLint", "OcspResponseLint":
+			return true
+		}
+		return false
+	}
+	isCtorField := func(a ssa.Value) bool {
+		fa, ok := a.(*ssa.FieldAddr)
+		if !ok || !isLintStruct(fa.X.Type()) {
+			return false
+		}
+		st, ok := fa.X.Type().Underlying().(*types.Pointer).Elem().Underlying().(*types.Struct)
+		return ok && st.Field(fa.Field).Name() == "Lint"
+	}
+	n := 0
+	for _, f := range modFunctions(c) {
+		allInstrs(f, func(in ssa.Instruction) {
+			st, ok := in.(*ssa.Store)
+			if !ok || !isCtorField(st.Addr) {
+				return
+			}
+			n++
+			v := st.Val
+			for {
+				if ct, ok := v.(*ssa.ChangeType); ok {
+					v = ct.X
+					continue
+				}
+				break
+			}
+			okv, why := false, ""
+			switch x := v.(type) {
+			case *ssa.Function:
+				_, okv, why = ctorResult(x, 0)
+			case *ssa.MakeClosure:
+				_, okv, why = ctorResult(x.Fn.(*ssa.Function), 0)
+			case *ssa.UnOp:
+				if x.Op == token.MUL && isCtorField(x.X) {
+					okv, why = true, "copy of another lint struct's constructor field"
+				} else {
+					why = "constructor field is set from " + x.String()
+				}
+			default:
+				why = fmt.Sprintf("constructor field is set from %T %s", v, v.String())
+			}
+			r.Check(okv, "ctor-field", fname(f)+"|"+apath(st.Addr), st.Pos(), why,
+				fmt.Sprintf("%s stores into the constructor field of a lint struct a value that is not a fresh-instance constructor (%s): the framework would run lints on a shared/cached instance", fname(f), why))
+		})
+	}
+	r.Floor("stores into a lint struct's constructor field", 370, n)
 }
 
 var _ = constant.MakeBool
